@@ -51,6 +51,11 @@ def build(base, rnd):
     ds = mk(rnd.randint(2, 4)) + [gen.content(['text', 70000, rnd.randrange(999)])]
     for k, d in zip(cont.add_objects_to_pack(ds, compress=True), ds):
         model[k] = d
+    # objects in BOTH forms: loose first, packed (compressed) without cleaning - a valid state in which the loose copy is live data
+    # (a backwards/from-the-end seek in the compressed packed object is served from it)
+    for d in mk(rnd.randint(1, 3)) + [gen.content(['text', 900, rnd.randrange(999)])]:
+        model[cont.add_object(d)] = d
+    cont.pack_all_loose(compress=True)
     for d in mk(rnd.randint(2, 4)):
         model[cont.add_object(d)] = d
     cont.close()
@@ -63,11 +68,20 @@ def ground_truth(root, model):
 
     cont = Container(root)
     try:
+        has_loose = set(rawread.loose_keys(root))
         for k, d in model.items():
             try:
                 with cont.get_object_stream_and_meta(k) as (stream, meta):
                     got = stream.read()
                     size = meta.size
+                    if k in has_loose and meta.pack_compressed:
+                        # a second live copy: seeking reads of a compressed packed object are served from its loose copy.
+                        # Read that copy in full through the API (seek to the end switches to it).
+                        stream.seek(0, 2)
+                        stream.seek(0)
+                        again = stream.read()
+                        if again != d:
+                            return f'{k[:10]} reads back as {len(again)} other bytes through its loose copy (after a seek)'
             except Timeout:
                 raise
             except BaseException as exc:  # noqa: BLE001 - AssertionError etc. included
